@@ -3,6 +3,20 @@
 # the evidence next to what the engine measured.
 
 PROPS = {
+    "C06": {
+        "groups": [
+            {"pkg": "server", "tags": "verif,test", "harness": "^verifH_C06_"},
+        ],
+        "bounds": {"devices": "2 authorized + 1 banned id, arbitrary contents", "latitude/longitude": "finite (no NaN/Inf)"},
+        "outside": ["JSON decoding of the request body (encoding/json, strconv)", "a new id whose key equals another live device's key"],
+    },
+    "C07": {
+        "groups": [
+            {"pkg": "server", "tags": "verif,test", "harness": "^verifH_C07_"},
+        ],
+        "bounds": {"sequences": "one step from any state; register,register,replay,restart,register"},
+        "outside": ["validity of the all-zero key under secp256k1 (a curve fact)", "real concurrency below critical-section granularity (registerGCA is one critical section; see C13)"],
+    },
     "C11": {
         "groups": [
             {"pkg": "client", "tags": "verif,test", "harness": "^verifH_C11_sync_reply", "unwind": 3, "feas_ms": 0, "timeout_ms": 60000},
